@@ -29,10 +29,19 @@ Arguments Exc {A}.
 Notation "'dor' x <- e ; k" := (match e with Ok x => k | Exc => Exc end)
   (at level 200, x pattern, e at level 100, k at level 200, right associativity).
 Definition of_opt {A} (o : option A) : res A := match o with Some x => Ok x | None => Exc end.
-Fixpoint omap {A B} (f : A -> option B) (l : list A) : option (list B) :=
+Section OMap.
+  Context {A B : Type} (f : A -> option B).
+  Fixpoint omap (l : list A) : option (list B) :=
+    match l with
+    | [] => Some []
+    | x :: r => match f x, omap r with Some y, Some t => Some (y :: t) | _, _ => None end
+    end.
+End OMap.
+(* map with a threaded state, stopping at the first exception *)
+Fixpoint mapM_st {A B S} (f : A -> S -> res (B * S)) (l : list A) (st : S) : res (list B * S) :=
   match l with
-  | [] => Some []
-  | x :: r => match f x, omap f r with Some y, Some t => Some (y :: t) | _, _ => None end
+  | [] => Ok ([], st)
+  | x :: r => dor (y, st1) <- f x st; dor (ys, st2) <- mapM_st f r st1; Ok (y :: ys, st2)
   end.
 (* nesting depth of a value: enough fuel for every deserializer below *)
 Fixpoint sval_depth (v : sval) : nat :=
@@ -143,11 +152,6 @@ Definition raw_val (r : option pystr) : sval := match r with Some t => JStr t | 
 
 (* Source._serialize / NoSource._serialize; None = KeyError (source not in the registry) *)
 Fixpoint ser_source (s : slots) (reg : list source) (x : source) : option sval :=
-  let fix go (l : list source) : option (list sval) :=
-    match l with
-    | [] => Some []
-    | y :: r => match ser_source s reg y, go r with Some a, Some b => Some (a :: b) | _, _ => None end
-    end in
   match x with
   | SNo => Some (JMap [])
   | _ =>
@@ -159,7 +163,7 @@ Fixpoint ser_source (s : slots) (reg : list source) (x : source) : option sval :
                         [kv "source_uri" (JStr u); kv "source_type" (JStr (lit "<memory>")); kv "_raw" (raw_val raw)]))
     | SFile p => Some (JMap (source_post s (lit "FileSource")
                         [kv "source_uri" (JStr p); kv "source_type" (JStr (lit "File")); kv "_raw" JNull; kv "relative_path" (JStr p)]))
-    | SSet l => match go l with
+    | SSet l => match omap (ser_source s reg) l with
                 | Some vs => Some (JMap (source_post s (lit "SourceSet")
                         [kv "source_uri" (JStr (source_fqn x)); kv "source_type" (JStr (lit "SourceSet")); kv "_raw" JNull;
                          kv "sources" (JList vs)]))
@@ -185,11 +189,6 @@ Fixpoint ser_position (s : slots) (o : origin) : sval :=
   end.
 
 Fixpoint ser_origin (s : slots) (reg : list source) (o : origin) : option sval :=
-  let fix go (l : list origin) : option (list sval) :=
-    match l with
-    | [] => Some []
-    | y :: r => match ser_origin s reg y, go r with Some a, Some b => Some (a :: b) | _, _ => None end
-    end in
   let simple (cls : string) (src : source) : option sval :=
     match ser_source s reg src with
     | Some sv => Some (JMap (base_post s (lit cls) [kv "source" sv; kv "position" (ser_position s o)]))
@@ -202,7 +201,7 @@ Fixpoint ser_origin (s : slots) (reg : list source) (o : origin) : option sval :
   | OXml src _ => simple "XMLFileOrigin"%string src
   | OEntire src => simple "Origin"%string src
   | OMulti l =>
-    match ser_source s reg (osource o), go l with
+    match ser_source s reg (osource o), omap (ser_origin s reg) l with
     | Some sv, Some vs => Some (JMap (base_post s (lit "MultiOrigin")
                                  [kv "source" sv; kv "position" (ser_position s o); kv "origins" (JList vs)]))
     | _, _ => None
@@ -238,21 +237,9 @@ Section Ser.
   Fixpoint ser_node (s : slots) (reg : list source) (ids : list (nat * pystr)) (armed : list nat) (n : node) : option sval :=
     match n with
     | Node a c o ps ks =>
-      let fix go (l : list node) : option (list sval) :=
-        match l with
-        | [] => Some []
-        | x :: r => match ser_node s reg ids armed x, go r with Some v, Some vs => Some (v :: vs) | _, _ => None end
-        end in
-      let fix gok (ks : list (pystr * (kshape * list node))) : option (list (pystr * sval)) :=
-        match ks with
-        | [] => Some []
-        | (f, (sh, l)) :: r =>
-          match go l, gok r with
-          | Some vs, Some rest => Some ((f, shape_val sh vs) :: rest)
-          | _, _ => None
-          end
-        end in
-      match assoc_nat a ids, ser_origin s reg o, gok ks with
+      match assoc_nat a ids, ser_origin s reg o,
+            omap (fun k => option_map (fun vs => (fst k, shape_val (fst (snd k)) vs))
+                                      (omap (ser_node s reg ids armed) (snd (snd k)))) ks with
       | Some i, Some ov, Some kvals =>
         if existsb (Nat.eqb a) armed then None else
         let user := map (fun f => (fd_name f,
@@ -314,11 +301,6 @@ Section Ser.
     match fuel with
     | 0%nat => Exc
     | S fuel' =>
-      let fix go (l : list sval) (reg : list source) : res (list source * list source) :=
-        match l with
-        | [] => Ok ([], reg)
-        | x :: r => dor (y, reg1) <- deser_source fuel' x reg; dor (ys, reg2) <- go r reg1; Ok (y :: ys, reg2)
-        end in
       match v with
       | JMap m =>
         if is_empty_map m || tag_is m "NoSource" then Ok (SNo, reg)
@@ -346,7 +328,7 @@ Section Ser.
                    dor p <- jget_str "relative_path" m; Ok (SFile p, reg)
                  else if pystr_eqb c (lit "SourceSet") then
                    match jget (lit "sources") m with
-                   | Some (JList l) => dor (ys, reg1) <- go l reg; Ok (SSet ys, reg1)
+                   | Some (JList l) => dor (ys, reg1) <- mapM_st (deser_source fuel') l reg; Ok (SSet ys, reg1)
                    | _ => Exc
                    end
                  else Exc
@@ -392,11 +374,6 @@ Section Ser.
     match fuel with
     | 0%nat => Exc
     | S fuel' =>
-      let fix go (l : list sval) (reg : list source) : res (list origin * list source) :=
-        match l with
-        | [] => Ok ([], reg)
-        | x :: r => dor (y, reg1) <- deser_origin fuel' s x reg; dor (ys, reg2) <- go r reg1; Ok (y :: ys, reg2)
-        end in
       match v with
       | JMap m =>
         if is_empty_map m || tag_is m "NoOrigin" then Ok (ONo, reg)
@@ -429,7 +406,7 @@ Section Ser.
             else if pystr_eqb c (lit "MultiOrigin") then
               match jget (lit "origins") m with
               | Some (JList l) =>
-                dor (os, reg1) <- go l reg;
+                dor (os, reg1) <- mapM_st (deser_origin fuel' s) l reg;
                 if Nat.ltb (length os) 2 then Exc else
                 Ok (OMulti os, match multi_source (map osource os) with SSet _ as ss => register1 ss reg1 | _ => reg1 end)
               | _ => Exc
@@ -461,11 +438,6 @@ Section Ser.
     match fuel with
     | 0%nat => Exc
     | S fuel' =>
-      let fix go (l : list sval) (st : dstate) : res (list node * dstate) :=
-        match l with
-        | [] => Ok ([], st)
-        | x :: r => dor (y, st1) <- deser_node dv fuel' s x st; dor (ys, st2) <- go r st1; Ok (y :: ys, st2)
-        end in
       match v with
       | JMap m =>
         dor i <- jget_str "id" m;
@@ -509,7 +481,7 @@ Section Ser.
                         (match k, x with
                          | KOpt true, JNull => Ok ((ShNone, []), st)
                          | KOpt _, _ => dor (y, st1) <- deser_node dv fuel' s x st; Ok ((ShOne, [y]), st1)
-                         | KTup, JList l => dor (ys, st1) <- go l st; Ok ((ShMany, ys), st1)
+                         | KTup, JList l => dor (ys, st1) <- mapM_st (deser_node dv fuel' s) l st; Ok ((ShMany, ys), st1)
                          | KTup, _ => Exc
                          end);
                       dor (ps, ks, st2) <- fields r st1; Ok (ps, (fd_name f, kv1) :: ks, st2)
